@@ -21,15 +21,17 @@ DEFAULT_NAMES = {
 }
 
 # vetted admissible tensor-name configurations (DESIGN §6.3): pairwise distinct names, no
-# helper-tensor names, amplitude / density bases not prefixes of each other
+# helper-tensor names, amplitude / density bases not prefixes of each other, and no name
+# that sympy.sympify turns into something other than a Symbol (E, I, S, N, O, Q, C, pi,
+# gamma, ...: the tensor constructors sympify their name)
 CONFIGS = {
     "default": {},
     "full": {"eri": "W", "fock": "F", "gs_amplitude": "s", "gs_density": "rho",
-             "orb_energy": "eps", "sym_orb_denom": "Q", "left_adc_amplitude": "L",
+             "orb_energy": "eps", "sym_orb_denom": "Dn", "left_adc_amplitude": "L",
              "right_adc_amplitude": "R", "coulomb": "w", "operator": "o"},
     "amps": {"gs_amplitude": "amp", "left_adc_amplitude": "Yl",
              "right_adc_amplitude": "Yr"},
-    "ints": {"eri": "g", "fock": "h", "orb_energy": "E", "coulomb": "c"},
+    "ints": {"eri": "g", "fock": "h", "orb_energy": "eo", "coulomb": "c"},
     "swap": {"eri": "f", "fock": "V", "left_adc_amplitude": "Y",
              "right_adc_amplitude": "X"},
     "dens": {"gs_density": "gam", "operator": "B", "sym_orb_denom": "Den"},
